@@ -633,3 +633,11 @@ func NewLog(api ipfsAPI, w int, id string, o Ordering, io iface.IO, opts *ipfslo
 	lo.IO = io
 	return ipfslog.NewLog(api, Identity(w), lo)
 }
+
+// IOFresh builds a new codec instance (not cached): a second party holding the same key bytes.
+func IOFresh(c Codec, key int) iface.IO {
+	if c == CodecLinkKey {
+		return baseCBOR().ApplyOptions(&cbor.Options{LinkKey: LinkKey(key)})
+	}
+	return IO(c, key)
+}
